@@ -431,10 +431,14 @@ func (pk *Packet) ConnectDecode(buf []byte) error {
 	}
 
 	if pk.Connect.PasswordFlag {
-		pk.Connect.Password, _, err = decodeBytes(buf, offset)
+		pk.Connect.Password, offset, err = decodeBytes(buf, offset)
 		if err != nil {
 			return ErrMalformedPassword
 		}
+	}
+
+	if offset != len(buf) {
+		return ErrMalformedPacket // payload fields beyond those announced by the connect flags [MQTT-3.1.2-16] [MQTT-3.1.2-18]
 	}
 
 	return nil
@@ -491,6 +495,14 @@ func (pk *Packet) ConnectValidate() Code {
 
 	if !pk.Connect.WillFlag && pk.Connect.WillRetain {
 		return ErrProtocolViolationWillFlagSurplusRetain // [MQTT-3.1.2-13]
+	}
+
+	if !pk.Connect.WillFlag && pk.Connect.WillQos != 0 {
+		return ErrProtocolViolationQosOutOfRange // [MQTT-3.1.2-11]
+	}
+
+	if pk.ProtocolVersion < 5 && pk.Connect.PasswordFlag && !pk.Connect.UsernameFlag {
+		return ErrProtocolViolationFlagNoUsername // [MQTT-3.1.2-22] (MQTT 3.1.1)
 	}
 
 	return CodeSuccess
